@@ -10,7 +10,9 @@ from core import Scratch
 
 EXTRA = ["#  a\n#  b\n#  c\n#  d\n", "a   \nb   \nc   \nd   \n", "<!-- pyml disable-num-lines 3 md019,md009-->\n#  a\nb   \n", "[l]: /u\n\n[l] [m]\n", "[m]: /v\n\n[l] [m]\n",
          "# T\n\n## a\n\n## a\n", "1. a\n2. b\n", "1. a\n1. b\n", "- a\n\n* b\n", "```\nx\n```\n\n    y\n", "    y\n\n```\nx\n```\n", "*a*\n\n_b_\n", "---\ntitle: x\n---\n\n# h\n",
-         "<!-- pyml disable-next-line md041-->\ntext\n", "text\n"]
+         "<!-- pyml disable-next-line md041-->\ntext\n", "text\n",
+         # thematic breaks of one style per file (a rule that adopts the first style it sees must forget it with the file)
+         "# a\n\n---\n\ntext\n\n---\n", "# b\n\n***\n\ntext\n\n***\n", "# c\n\n- x\n\n+ y\n", "# d\n\n* z\n* w\n"]
 
 
 # a second configuration that switches on the rule options which make rules remember more between headings / lists
